@@ -142,6 +142,11 @@ func NewWorld(seed uint64) *World {
 		w.Replay, w.Tape = true, *pendingReplay
 	}
 	verifhook.Yield = w.yield
+	crng := sim.NewRand(sim.Mix(seed ^ 0xc400))
+	verifhook.Choose = func(site string, n uint32) (uint32, bool) {
+		// e.g. the starting offset of the ephemeral port search
+		return uint32(crng.Intn(int(n))), true
+	}
 	return w
 }
 
